@@ -19,6 +19,7 @@ func init() {
 	register("C01", func(c *core.Ctx, tier string) {
 		checkUnderFlushMu(c, "C01.21")
 		jsonpNoBinary(c, "C01.22")
+		wtCandidateRevision(c, "C01.23")
 		frameTransportEffects(c, "C01.20")
 		pollingEffects(c, "C01.19")
 		accessorAgreement(c, "C01.17")
